@@ -104,6 +104,13 @@ CHECKS = {
         "Trusted: Floyd-Warshall closure as reference; only nodes returned by top() are released.",
         "DESIGN.md section 5, C08",
     ),
+    "C04": (
+        "brute-force oracle over the real checker and interpreter: for each (type, arm list) all values are enumerated and the first matching arm computed; acceptance, every reported missing pattern, and the arm taken at run time are compared",
+        "Exhaustive enumeration (thorough) of all arm lists up to length 3 over 13 types at pattern depth 2-3, a seeded slice in quick, plus random deeper matrices and all comatch destructor multisets up to size 4. "
+        "accepted <=> exhaustive; each reported CoveragePattern must have an unmatched instance; accepted matches must select the reference arm for every enumerated value.",
+        "Trusted: first-match semantics; recursive types enumerated to pattern depth + 1.",
+        "DESIGN.md section 5, C04",
+    ),
     "C05": (
         "differential monitor: host operations called through the public machine step vs an i128/IEEE reference model; exhaustive for 8-bit operands",
         "Every numeric role is executed on the real interpreter code path and compared with an independent arithmetic model: "
